@@ -154,67 +154,128 @@ def SubR.empty (s : SubR) : Bool :=
 
 def setLast {α : Type} (l : List α) (a : α) : List α := l.dropLast ++ [a]
 
+/-- the padded line sets of the cells, with each cell's width (first failing cell's error wins) -/
+def colSets (ann : Tag) : List SubR → Except Err (List (Nat × List RLine))
+  | [] => .ok []
+  | c :: cs =>
+    andThen c.intoLines fun ls =>
+    andThen (colSets ann cs) fun r => .ok ((c.width, ls.map (padLine ann c.width)) :: r)
+
+/-- collapse top borders (`pos` = x offset of the cell, advanced by `w + 1` per cell as in the code): a cell whose
+    first line is a rule merges it into the previous line -/
+def collapseTop : Option Border → Nat → List (Nat × List RLine) → Except Err (Option Border × List (Nat × List RLine))
+  | prev, _, [] => .ok (prev, [])
+  | prev, pos, st :: r =>
+    match st.2 with
+    | .rule b _ :: restLines =>
+      (match prev with
+       | some pb => andThen (collapseTop (some (pb.mergeFromBelow b pos)) (pos + st.1 + 1) r) fun (p, out) => .ok (p, (st.1, restLines) :: out)
+       | none => .error (.panic "No previous line / unreachable (collapse top border)"))
+    | _ => andThen (collapseTop prev (pos + st.1 + 1) r) fun (p, out) => .ok (p, st :: out)
+
+/-- collapse bottom borders: a cell whose last line is a rule merges it into the next border; the cell is padded
+    below with the vertical continuation of that rule -/
+def collapseBottom : Border → Nat → List (Nat × List RLine) → Border × List (Nat × List RLine) × List (Option (List Ch))
+  | nb, _, [] => (nb, [], [])
+  | nb, pos, st :: r =>
+    match st.2.getLast? with
+    | some (.rule b _) =>
+      let (nb', out, pads) := collapseBottom (nb.mergeFromAbove b pos) (pos + st.1 + 1) r
+      (nb', (st.1, st.2.dropLast) :: out, some b.vertAbove :: pads)
+    | _ =>
+      let (nb', out, pads) := collapseBottom nb (pos + st.1 + 1) r
+      (nb', st :: out, none :: pads)
+
+/-- what a cell contributes to output line `i` of its row -/
+def colLineBody (ann : Tag) (i : Nat) (st : Nat × List RLine) (pad : Option (List Ch)) : TLine :=
+  match st.2[i]? with
+  | some (.text tl) => tl
+  | some (.rule b _) => b.chars.map fun c => Elt.cell ⟨c, ann⟩
+  | none => (pad.getD (List.replicate st.1 spaceCh)).map fun c => Elt.cell ⟨c, ann⟩
+
+/-- output line `i` of a row: the cells' contributions with a separator after every cell but the last -/
+def colLine (ann : Tag) (sep : Ch) (i : Nat) : List ((Nat × List RLine) × Option (List Ch)) → TLine
+  | [] => []
+  | [(st, pad)] => colLineBody ann i st pad
+  | (st, pad) :: r => colLineBody ann i st pad ++ [Elt.cell ⟨sep, ann⟩] ++ colLine ann sep i r
+
+/-- x positions of the vertical bars between the cells: right edge of every cell but the last -/
+def barPositions (pos : Nat) : List (Nat × List RLine) → List Nat
+  | [] => []
+  | [_] => []
+  | st :: r => (pos + st.1) :: barPositions (pos + st.1 + 1) r
+
+/-- join the vertical bars of the row to the previous line (if it is a rule) and to the row's bottom border -/
+def SubR.joinBars (s : SubR) (sets : List (Nat × List RLine)) (tot : Nat) : Option Border × Border :=
+  let next0 : Border := List.replicate tot Seg.straight
+  match s.lines.getLast? with
+  | some (.rule pb _) =>
+    let js := barPositions 0 sets
+    (some (js.foldl Border.joinBelow pb), js.foldl Border.joinAbove next0)
+  | _ => (none, next0)
+
+/-- write the (joined, merged) previous border back -/
+def SubR.setLastRule (s : SubR) (prev : Option Border) : SubR :=
+  match prev with
+  | some pb => (match s.lines.getLast? with
+      | some (.rule _ t) => { s with lines := setLast s.lines (.rule pb t) }
+      | _ => s)
+  | none => s
+
+/-- the text lines of the row, then its bottom border -/
+def SubR.emitColumns (s : SubR) (cfg : Cfg) (ann : Tag) (sets3 : List (Nat × List RLine)) (pads : List (Option (List Ch))) (next2 : Border) : SubR :=
+  let height := (sets3.map (·.2.length)).foldl max 0
+  let sep : Ch := if cfg.drawBorders then mkCh 0x2502 else spaceCh
+  let s2 := s.addLines ((List.range height).map fun i => RLine.text (colLine ann sep i (sets3.zip pads)))
+  if cfg.drawBorders then s2.addLine (.rule next2 ann) else s2
+
 /-- append_columns_with_borders(cols, collapse = true) -/
 def SubR.appendColumns (s : SubR) (cfg : Cfg) (cols : List SubR) : Except Err SubR :=
   andThen s.flushWrapping fun s =>
-  andThen (cols.foldl (fun acc c => andThen acc fun l => andThen c.intoLines fun ls =>
-      .ok (l ++ [(c.width, ls.map (padLine s.annStack c.width))])) (.ok [])) fun (sets : List (Nat × List RLine)) =>
+  andThen (colSets s.annStack cols) fun (sets : List (Nat × List RLine)) =>
   if sets.isEmpty then .error (.panic "line_sets.len() - 1") else
   let tot := (sets.map (·.1)).sum + (sets.length - 1)
-  let offsets : List Nat := (sets.foldl (fun (acc : Nat × List Nat) st => (acc.1 + st.1 + 1, acc.2 ++ [acc.1])) (0, [])).2
-  let next0 : Border := List.replicate tot Seg.straight
-  -- join the vertical lines to the borders
-  let (prev1, next1) : Option Border × Border :=
-    match s.lines.getLast? with
-    | some (.rule pb _) =>
-      let js := ((sets.zip offsets).dropLast).map fun (st, off) => off + st.1
-      (some (js.foldl Border.joinBelow pb), js.foldl Border.joinAbove next0)
-    | _ => (none, next0)
-  -- collapse top borders
-  let r : Except Err (Option Border × List (Nat × List RLine)) :=
-    (sets.zip offsets).foldl (fun acc (st, off) => andThen acc fun (prev, out) =>
-      match st.2 with
-      | .rule b _ :: restLines =>
-        (match prev with
-         | some pb => .ok (some (pb.mergeFromBelow b off), out ++ [(st.1, restLines)])
-         | none => .error (.panic "No previous line / unreachable (collapse top border)"))
-      | _ => .ok (prev, out ++ [st])) (.ok (prev1, []))
-  andThen r fun (prev2, sets2) =>
-  -- collapse bottom borders
-  let (next2, sets3, pads) : Border × List (Nat × List RLine) × List (Option (List Ch)) :=
-    (sets2.zip offsets).foldl (fun (acc : Border × List (Nat × List RLine) × List (Option (List Ch))) (st, off) =>
-      let (nb, out, pads) := acc
-      match st.2.getLast? with
-      | some (.rule b _) => (nb.mergeFromAbove b off, out ++ [(st.1, st.2.dropLast)], pads ++ [some b.vertAbove])
-      | _ => (nb, out ++ [st], pads ++ [none])) (next1, [], [])
-  let height := (sets3.map (·.2.length)).foldl max 0
-  let n := sets3.length
-  let sep : Ch := if cfg.drawBorders then mkCh 0x2502 else spaceCh
-  let mkLine (i : Nat) : RLine :=
-    .text (((sets3.zip pads).zipIdx).flatMap fun ((st, pad), cellno) =>
-      let body : TLine := match st.2[i]? with
-        | some (.text tl) => tl
-        | some (.rule b _) => b.chars.map fun c => Elt.cell ⟨c, s.annStack⟩
-        | none => (pad.getD (List.replicate st.1 spaceCh)).map fun c => Elt.cell ⟨c, s.annStack⟩
-      if cellno + 1 ≠ n then body ++ [Elt.cell ⟨sep, s.annStack⟩] else body)
-  let s1 : SubR := match prev2 with
-    | some pb => (match s.lines.getLast? with
-        | some (.rule _ t) => { s with lines := setLast s.lines (.rule pb t) }
-        | _ => s)
-    | none => s
-  let s2 := s1.addLines ((List.range height).map mkLine)
-  .ok (if cfg.drawBorders then s2.addLine (.rule next2 s.annStack) else s2)
+  let pn := s.joinBars sets tot
+  andThen (collapseTop pn.1 0 sets) fun (prev2, sets2) =>
+  let r := collapseBottom pn.2 0 sets2
+  .ok ((s.setLastRule prev2).emitColumns cfg s.annStack r.2.1 r.2.2 r.1)
+
+/-- the cells of a stacked row, one below the other, separated by `/////` rules -/
+def vertCells (cfg : Cfg) (first : Bool) (s : SubR) : List SubR → Except Err SubR
+  | [] => .ok s
+  | c :: cs =>
+    andThen (if !first && cfg.drawBorders then
+        andThen s.flushWrapping fun s' => .ok (s'.addLine (.rule (List.replicate s.width Seg.vert) s'.annStack))
+      else .ok s) fun s' =>
+    andThen (s'.appendSub c [] []) fun s'' => vertCells cfg false s'' cs
 
 /-- append_vert_row -/
 def SubR.appendVertRow (s : SubR) (cfg : Cfg) (cols : List SubR) : Except Err SubR :=
   andThen s.flushWrapping fun s =>
-  andThen ((cols.zipIdx).foldl (fun acc (c, i) => andThen acc fun (s : SubR) =>
-      andThen (if i ≠ 0 && cfg.drawBorders then
-          andThen s.flushWrapping fun s' => .ok (s'.addLine (.rule (List.replicate s.width Seg.vert) s'.annStack))
-        else .ok s) fun s' =>
-      s'.appendSub c [] []) (.ok s)) fun s1 =>
+  andThen (vertCells cfg true s cols) fun s1 =>
   if cfg.drawBorders then andThen s1.flushWrapping fun s2 => .ok (s2.addLine (.rule (List.replicate s2.width Seg.straight) s2.annStack))
   else .ok s1
+
+/-- the top border of a table (drawn when the table has any width) -/
+def SubR.tableTop (s : SubR) (cfg : Cfg) (tw : Nat) : Except Err SubR :=
+  if tw ≠ 0 && cfg.drawBorders then
+    andThen s.flushWrapping fun s2 => .ok (s2.addLine (.rule (List.replicate tw Seg.straight) s2.annStack))
+  else .ok s
+
+/-- a finished row: stacked, side by side, or nothing when every cell is empty -/
+def SubR.appendRow (s : SubR) (cfg : Cfg) (vert : Bool) (subs : List SubR) : Except Err SubR :=
+  if vert then s.appendVertRow cfg subs
+  else if subs.any (fun c => !c.empty) then s.appendColumns cfg subs else .ok s
+
+/-- `col_sizes[colno]` / `col_sizes[colno..colno + colspan]` would be out of bounds -/
+def cellOob (ws : List Nat) (vert : Bool) (colno colspan : Nat) : Bool :=
+  if vert then decide (colno ≥ ws.length) else decide (colno + colspan > ws.length)
+
+/-- width of the columns a cell spans (stacked: the full width kept in `col_sizes[colno]`) -/
+def cellInner (ws : List Nat) (vert : Bool) (colno colspan : Nat) : Nat :=
+  if vert then ws.getD colno 0 else ((ws.drop colno).take colspan).sum
+/-- the cell's renderer also gets the separators between the columns it spans -/
+def cellOuter (vert : Bool) (cw colspan : Nat) : Nat := if vert then cw else cw + colspan - 1
 
 /-- render state: the global link list and the sub-renderer currently on top of the (implicit) stack -/
 structure RS where
@@ -329,9 +390,7 @@ def runOp (wm : SubR → Cfg → Nat → Nat → Except Err Nat) (cfg : Cfg) (d 
   | .table cols rows =>
     andThen (allocCols cfg t.cur.width cols) fun (ws, vert, tw) =>
     andThen t.cur.startBlock fun s1 =>
-    andThen (if tw ≠ 0 && cfg.drawBorders then
-        andThen s1.flushWrapping fun s2 => .ok (s2.addLine (.rule (List.replicate tw Seg.straight) s2.annStack))
-      else .ok s1) fun s3 =>
+    andThen (s1.tableTop cfg tw) fun s3 =>
     runRows wm cfg d ws vert { t with cur := s3 } rows
   | .row _ _ _ => .ok t            -- rows only occur inside tables
   | .cell _ _ _ => .ok t           -- cells only occur inside rows
@@ -344,8 +403,7 @@ def runRows (wm : SubR → Cfg → Nat → Nat → Except Err Nat) (cfg : Cfg) (
   | .row pre post cells :: rs =>
     andThen (runOps wm cfg d t pre) fun t1 =>
     andThen (runCells wm cfg d ws vert t1.cur.annStack t1.links cells) fun (links, subs) =>
-    andThen (if vert then t1.cur.appendVertRow cfg subs
-             else if subs.any (fun c => !c.empty) then t1.cur.appendColumns cfg subs else .ok t1.cur) fun s2 =>
+    andThen (t1.cur.appendRow cfg vert subs) fun s2 =>
     andThen (runOps wm cfg d { links := links, cur := s2 } post) fun t3 =>
     runRows wm cfg d ws vert t3 rs
   | _ :: rs => runRows wm cfg d ws vert t rs
@@ -354,12 +412,10 @@ def runCells (wm : SubR → Cfg → Nat → Nat → Except Err Nat) (cfg : Cfg) 
   | [] => .ok (links, [])
   | .cell colno colspan body :: cs =>
     -- `col_sizes[colno]` / `col_sizes[colno..colno + colspan]` are bounds-checked
-    if (if vert then colno ≥ ws.length else colno + colspan > ws.length) then .error (.panic "into_cells col_sizes index") else
-    let cw := if vert then ws.getD colno 0 else ((ws.drop colno).take colspan).sum
-    if cw = 0 then runCells wm cfg d ws vert ann links cs
+    if cellOob ws vert colno colspan then .error (.panic "into_cells col_sizes index") else
+    if cellInner ws vert colno colspan = 0 then runCells wm cfg d ws vert ann links cs
     else
-      let cellW := if vert then cw else cw + colspan - 1
-      andThen (runOps wm cfg d { links := links, cur := ({ width := cellW, annStack := ann } : SubR) } body) fun r =>
+      andThen (runOps wm cfg d { links := links, cur := ({ width := cellOuter vert (cellInner ws vert colno colspan) colspan, annStack := ann } : SubR) } body) fun r =>
       andThen (runCells wm cfg d ws vert ann r.links cs) fun (l2, subs) => .ok (l2, r.cur :: subs)
   | _ :: cs => runCells wm cfg d ws vert ann links cs
 end
